@@ -10,6 +10,7 @@
 //!
 //! args: --seed S --n GRAMMARS --out DIR [recheck=0|1] [--replay FILE.json]
 //! One JSON stats line on stdout; per-grammar records in <out>/typed.meta.json.
+#![allow(dead_code)]
 use verif_harness::*;
 
 // ------------------------------------------------------------------------------------------ types
@@ -391,7 +392,7 @@ impl<'r> Gen<'r> {
                 } else if funky {
                     chosen.push(sty.clone());
                     Bind::Choose
-                } else if let (Ty::Tuple(ts), true) = (&sty, self.r.chance(1, 2)) {
+                } else if let (Ty::Tuple(ts), true, false) = (&sty, self.r.chance(1, 2), matches!(s, Sym::Term(..))) {
                     if ts.is_empty() {
                         Bind::None
                     } else {
